@@ -383,7 +383,7 @@ impl<'tcx> Dumper<'tcx> {
             // a const item nested in a generic fn that does not use the parameters
             let mut done = false;
             if let Const::Unevaluated(uv, _) = c {
-                let evaluable = !matches!(tcx.def_kind(uv.def), DefKind::AssocConst { .. }) || tcx.defaultness(uv.def).has_value();
+                let evaluable = !matches!(tcx.def_kind(uv.def), DefKind::AssocConst { .. }) || assoc_const_has_value(tcx, uv.def);
                 if uv.promoted.is_none() && evaluable {
                     let did = uv.def;
                     let r = std::panic::catch_unwind(std::panic::AssertUnwindSafe(|| tcx.const_eval_poly(did)));
@@ -954,7 +954,7 @@ impl rustc_driver::Callbacks for Cb {
                     let _ = gens;
                     // an associated const declared in a trait without a default has no body to evaluate
                     let has_value = if matches!(tcx.def_kind(did), DefKind::AssocConst { .. }) {
-                        tcx.defaultness(did).has_value()
+                        assoc_const_has_value(tcx, did)
                     } else {
                         true
                     };
@@ -1151,6 +1151,17 @@ fn collect_generics<'tcx>(tcx: TyCtxt<'tcx>, g: &'tcx ty::Generics, out: &mut Ve
             ty::GenericParamDefKind::Const { .. } => out.push(format!("const {}", p.name)),
             ty::GenericParamDefKind::Lifetime => {}
         }
+    }
+}
+
+/// `tcx.defaultness` is only defined for items of a trait or of a trait impl (it ICEs on an inherent impl's item):
+/// an associated const of an inherent impl always has a value.
+fn assoc_const_has_value(tcx: TyCtxt<'_>, did: rustc_hir::def_id::DefId) -> bool {
+    let parent = tcx.parent(did);
+    match tcx.def_kind(parent) {
+        DefKind::Trait => tcx.defaultness(did).has_value(),
+        DefKind::Impl { of_trait } => !of_trait || tcx.defaultness(did).has_value(),
+        _ => true,
     }
 }
 
